@@ -124,6 +124,7 @@ func runC09(c *Ctx) {
 		r.Und("C09.rotate", "Process:rotate-payload", p.Pos(proc.Pos()), "no path asserts the payload to RotateWrapper")
 	}
 
+	c.ruleClassifySource()
 	c.ruleDefaults()
 	c.ruleFilterValueTable()
 	c.ruleNoPass()
@@ -217,6 +218,78 @@ func (c *Ctx) reflectKind(name string) int64 {
 		}
 	}
 	return -1
+}
+
+// ruleClassifySource: C09.classify — the classification handed to every value
+// operation is computed for THIS call from the tag and the overrides in force
+// for this event (or is the literal unknown classification); it is never taken
+// from state that outlives the event (a field, a global, a cache).
+func (c *Ctx) ruleClassifySource() {
+	p, r := c.P, c.R
+	const rule = "C09.classify"
+	n := 0
+	for _, f := range c.encryptReach() {
+		tb := p.NewTerms(nil)
+		eachInstr(f, func(in ssa.Instruction) {
+			ci, ok := in.(ssa.CallInstruction)
+			if !ok {
+				return
+			}
+			name := calleeName(ci.Common())
+			var arg ssa.Value
+			switch name {
+			case "(*filters/encrypt.Filter).filterValue":
+				arg = ci.Common().Args[3]
+			case "(*filters/encrypt.Filter).filterSlice":
+				arg = ci.Common().Args[2]
+			default:
+				return
+			}
+			n++
+			r.CallSites++
+			construct := p.ShortFn(f) + "->" + name[strings.LastIndex(name, ".")+1:]
+			t := tb.Of(arg)
+			ok, why := classificationFresh(t, f)
+			r.Check(ok, rule, construct, p.InstrPos(in), "classification computed for this call from the tag and this event's overrides (or passed through / literal unknown)", "the classification handed to "+name+" is "+why+": overrides changed later, or the defaults, would not be applied")
+		})
+	}
+	if n < 12 {
+		r.Und(rule, "instance-floor", "", fmt.Sprintf("only %d value-operation call sites found (12 expected)", n))
+	}
+}
+
+// classificationFresh: t is a call of getClassificationFromTag / getClassificationFromTagString
+// whose options are withFilterOperations(<overrides parameter or this event's copy>), the
+// function's own classification parameter, or a literal tagInfo.
+func classificationFresh(t *Term, f *ssa.Function) (bool, string) {
+	switch {
+	case t.Op == "Param":
+		return true, "" // handed down by the caller, which is checked at its own site
+	case t.Op == "Alloc" && strings.HasPrefix(t.Name, "encrypt.tagInfo"):
+		return true, "" // literal (unknown, unknown)
+	case t.Op == "Call" && (t.Name == "filters/encrypt.getClassificationFromTag" || t.Name == "filters/encrypt.getClassificationFromTagString"):
+		if len(t.Args) < 2 || t.Args[1].Op != "Varargs" || len(t.Args[1].Args) != 1 {
+			return false, "computed without the overrides option: " + t.String()
+		}
+		o := t.Args[1].Args[0]
+		if !(o.Op == "Call" && o.Name == "filters/encrypt.withFilterOperations" && len(o.Args) == 1) {
+			return false, "computed with an option other than withFilterOperations: " + o.String()
+		}
+		src := o.Args[0]
+		okSrc := src.Op == "Param" || (src.Op == "Call" && src.Name == "(*filters/encrypt.Filter).copyFilterOperationOverrides")
+		if !okSrc {
+			return false, "computed with overrides " + src.String() + " instead of this event's overrides"
+		}
+		return true, ""
+	case t.Op == "Phi":
+		for _, a := range t.Args {
+			if ok, why := classificationFresh(a, f); !ok {
+				return false, why
+			}
+		}
+		return true, ""
+	}
+	return false, "not computed from the tag for this call (" + t.String() + ")"
 }
 
 // ruleDefaults: C09.defaults
